@@ -4,7 +4,7 @@
    quantified), batch size and every dimension are unbounded. *)
 From Coq Require Import List Arith Bool String.
 Import ListNotations.
-From Coq Require Import QArith.
+From Coq Require Import QArith Permutation.
 From AgileV Require Import C16.Model C16.Proofs C16.Check C16.CheckProofs.
 Open Scope nat_scope.
 
@@ -240,6 +240,24 @@ Theorem stored_logprob_value : forall (T : Type) (P : prims T) (rho : string -> 
   = tdenote T P rho (spec_logprob (ed_space ed) (ed_squash ed) (eff_logits lg mask) (ed_log_std ed) act).
 Proof. exact stored_logprob_value_lemma. Qed.
 Print Assumptions stored_logprob_value.
+
+(* DEEPENING: IPPO's mask plumbing.  Whatever key order the caller chose for the infos dictionary (any permutation),
+   policy group g receives, row by row, the mask of the agent whose observation is stacked in that row (the members
+   of the group in agent_ids order) - so every agent is masked with its OWN mask *)
+Theorem ippo_masks_follow_observations : forall (V : Type) (ids : list agent) (infos infos' : list (agent * V)) (g : nat),
+  NoDup (map fst infos) -> Permutation infos infos' ->
+  ippo_masks ids infos' g = ippo_masks ids infos g /\
+  List.length (ippo_masks ids infos g) = List.length (group_members ids g) /\
+  (forall r a, nth_error (group_members ids g) r = Some a -> nth_error (ippo_masks ids infos' g) r = Some (lookup_agent a infos)).
+Proof. exact @ippo_masks_follow_observations_lemma. Qed.
+Print Assumptions ippo_masks_follow_observations.
+
+(* the code before 0c075e0 collected the masks in the caller's key order: refuted (two agents of one group listed in the other order) *)
+Theorem ippo_masks_pinned_refuted :
+  exists (ids : list agent) (infos infos' : list (agent * nat)) g,
+    NoDup (map fst infos) /\ Permutation infos infos' /\ ippo_masks_pinned infos' g <> ippo_masks ids infos g.
+Proof. exact ippo_masks_pinned_refuted_lemma. Qed.
+Print Assumptions ippo_masks_pinned_refuted.
 
 (* ---- non-vacuity: concrete states satisfy the hypotheses ---- *)
 Open Scope string_scope.
